@@ -1,6 +1,6 @@
 (* C06: liquidation only of under-margined positions, with exact payouts.  Statements only. *)
 From MP.Model Require Import Prelude U128 SInt Feed Vamm VammOps Token World Engine Runtime.
-From MP.Proofs Require Import Tactics SIntFacts EngineArith CloseFacts LiqFacts LiqTxFacts MirrorFacts PartialLiqTxFacts.
+From MP.Proofs Require Import Tactics SIntFacts EngineArith CloseFacts LiqFacts LiqTxFacts MirrorFacts PartialLiqTxFacts LimitTxFacts.
 From MP.Model Require Import Scenario.
 
 (* Liquidate is accepted only if the liquidation ratio (spot/TWAP ratio, overridden by the oracle
@@ -115,3 +115,15 @@ Definition c06_partial_example : bool :=
   end.
 Example C06_partial_nonvacuous : c06_partial_example = true.
 Proof. vm_compute. reflexivity. Qed.
+
+(* the first clause at TRANSACTION level: a Liquidate transaction (any caller, any funds, any fault index) succeeds
+   only if, on the state it starts from, the ratio as defined for liquidation is computable and not above the
+   maintenance ratio, the named position is not empty and the vAMM is registered and open *)
+Theorem C06_liquidate_tx_only_if : forall f w s v t lim funds w',
+  exec_op f w (OEngine s (ELiquidate v t lim) funds) = Ok w' ->
+  exists mr, liq_ratio (with_liquidator w s) v t = Ok mr /\
+             sgtb mr (spos (e_maint (ec (w_eng w)))) = false /\
+             sval (p_size (read_position (w_eng w) v t)) <> 0 /\
+             require_vamm (with_liquidator w s) v = Ok tt.
+Proof. exact liquidate_tx_only_if. Qed.
+Print Assumptions C06_liquidate_tx_only_if.
